@@ -233,7 +233,7 @@ def build_cases(ctx, scale=1.0):
     kinds = ["none", "cubic", "ortho", "tric", "tric", "tric"]
     dists_nl = ["uniform", "clustered", "boundary", "outside", "frac", "shifted", "faces", "faces"]
     cmodes = ["tiny", "mid", "mid", "half", "half", "above"]
-    n_small = int((300 if quick else 2500) * scale)
+    n_small = int((250 if quick else 2500) * scale)
     for _ in range(n_small):
         kind = rng.choice(kinds)
         dist = rng.choice(dists_nl)
